@@ -1249,6 +1249,18 @@ static void initializer2(Token **rest, Token *tok, Initializer *init) {
     return;
   }
 
+  // A string literal initializing a character array may be enclosed
+  // in braces, e.g. `char x[] = {"foo"};`.
+  if (init->ty->kind == TY_ARRAY && is_integer(init->ty->base) &&
+      equal(tok, "{") && tok->next->kind == TK_STR &&
+      (equal(tok->next->next, "}") ||
+       (equal(tok->next->next, ",") && equal(tok->next->next->next, "}")))) {
+    string_initializer(&tok, tok->next, init);
+    consume(&tok, tok, ",");
+    *rest = skip(tok, "}");
+    return;
+  }
+
   if (init->ty->kind == TY_ARRAY) {
     if (equal(tok, "{"))
       array_initializer1(rest, tok, init);
